@@ -43,18 +43,19 @@ RenderDocs ==
   \cup {NumD(n) : n \in FiniteNums} \cup {Arr(<<NumD(n), NumD(n)>>) : n \in FiniteNums}
   \cup {Obj(<< <<ka, NumD(n)>> >>) : n \in FiniteNums}
   \cup RepL1 \cup L2(2) \cup {Arr(<<Arr(<<Arr(<<>>)>>)>>), Obj(<< <<ka, Obj(<< <<kb, Obj(<<>>)>> >>)>> >>), Null, True, False}
+  \cup TwinDocs
 
 
 ----------------------------------------------------------------------------
 (* universes per family *)
 Docs1 ==
-  CASE Family \in {"codec"} -> AtomsWide \cup L1(AtomsSmall, KeysSmall, ObjValsSmall, Width) \cup L2(2)
+  CASE Family \in {"codec"} -> AtomsWide \cup L1(AtomsSmall, KeysSmall, ObjValsSmall, Width) \cup L2(2) \cup ExtraDocs
     [] Family \in {"acc", "edit"} -> AtomsSmall \cup {sTrue, s12, sNum15, sNumBig, i1, im1, f1, f2p53, fm0, u2p53p1, umax, imin} \cup ExtraDocs
                                        \cup L1(AtomsSmall, KeysSmall, ObjValsSmall, Width) \cup L2(2)
     [] Family \in {"acc11", "edit11"} -> AtomsSmall \cup {sTrue, s12, im1, f1, fm0, u2p53p1, sE, sSmile, sCtl, sQuote} \cup RepL1 \cup ExtraDocs
                                          \cup {Arr(<<u256, Null, f15>>), Arr(<<Arr(<<u1, sab>>), Obj(<< <<ka, Null>> >>)>>),
                                                Obj(<< <<kB, u1>>, <<ka, Arr(<<sE, f15>>)>> >>), Obj(<< <<kE, Obj(<< <<kab, Null>>, <<kb, sQuote>> >>)>> >>)}
-    [] Family \in {"pairs11"} -> {Null, True, u1, i1, f1, fm0, u0, sa, sab, Str(<<97, 32, 98>>), Str(<<97, 33>>), s12, sE, u2p53p1, f2p53} \cup RepL1
+    [] Family \in {"pairs11"} -> {Null, True, u1, i1, f1, fm0, u0, sa, sab, Str(<<97, 32, 98>>), Str(<<97, 33>>), s12, sE, u2p53p1, f2p53, u2p53, Arr(<<u2p53p1>>), Arr(<<f2p53>>), Arr(<<u2p53>>), Arr(<<sPA, u65>>), Arr(<<u65>>)} \cup RepL1
                                    \cup {Arr(<<u1>>), Arr(<<f1>>), Arr(<<u1, u1, sab>>), Obj(<< <<ka, u1>>, <<kb, Arr(<<f15>>)>> >>), Obj(<< <<ka, f1>> >>),
                                          Obj(<< <<ka, Arr(<<u1, u2>>)>> >>), Obj(<< <<ka, u1>> >>), Obj(<< <<ka, u2>>, <<kb, Null>> >>), Arr(<<u1, f1, u2>>),
                                          Arr(<<Arr(<<u1, u2>>), u2>>), Arr(<<Arr(<<u1, u1, u2>>)>>)}
@@ -93,7 +94,8 @@ EmitAcc(x) ==
   \/ \E n \in NameArgs(x), c \in {0, 1} : Out(S1("get_by_name", x, [n |-> n, ic |-> c]))
   \/ \E p \in KPaths(x, Depth(x) + 1) : Out(S1("get_by_keypath", x, [kp |-> p]))
   \/ \E o \in {"array_length", "object_keys", "object_each", "array_values", "type_of", "casts", "to_string", "to_pretty_string", "lazy"} : Out(S1(o, x, NoArg))
-  \/ \E ks \in KeyLists(x) \cup {<<n>> : n \in NameArgs(x)} \cup {<<ka, <<195>>>>, <<<<255>>, ka>>, <<<<195, 40>>>>}, c \in {0, 1} :
+  \/ \E ks \in KeyLists(x) \cup {<<n>> : n \in NameArgs(x)} \cup {<<ka, <<195>>>>, <<<<255>>, ka>>, <<<<195, 40>>>>}
+               \cup {<<n, n>> : n \in PresentKeys(x) \cup StringElems(x)} \cup {<<n, <<122>>, n, n>> : n \in PresentKeys(x)}, c \in {0, 1} :
         Out(S1("exists_keys", x, [keys |-> ks, all |-> c]))
   \/ \E n \in NameArgs(x) : Out(S1("traverse", x, [pred |-> [eq |-> n]]))
   \/ \E b \in {97, 98, 0} : Out(S1("traverse", x, [pred |-> [has |-> b]]))
